@@ -9,9 +9,9 @@ Import RecordSetNotations.
     forms, Reset). *)
 Definition structural (o : op) : bool :=
   match o with
-  | ONewEntity | OUNew _ | OUNewRel _ _ | ONewEntities _ | OCopy _ | OUAdd _ _ | OUAddRel _ _ _
-  | OURemove _ _ | OUExchange _ _ _ _ | OUSetRel _ _ | ORemoveEntity _ | ORemoveEntities _ _
-  | OReset | ONewBatch _ _ _ _ | OExchangeBatch _ _ _ _ _ _ | OSetRelBatch _ _ _ _ => true
+  | ONewEntity | OUNew _ | OUNewRel _ _ | ONewEntities _ _ | OCopy _ | OUAdd _ _ | OUAddRel _ _ _
+  | OURemove _ _ | OUExchange _ _ _ _ | OUSetRel _ _ | ORemoveEntity _ | ORemoveEntities _ _ _
+  | OReset | ONewBatch _ _ _ _ _ | OExchangeBatch _ _ _ _ _ _ | OSetRelBatch _ _ _ _ => true
   | _ => false
   end.
 
@@ -100,11 +100,11 @@ Lemma blocked_w_set_relations e rels : blocked (w_set_relations e rels).
 Proof. unfold w_set_relations. apply blocked_check. Qed.
 Lemma blocked_w_copy e : blocked (w_copy_entity e).
 Proof. unfold w_copy_entity. apply blocked_check. Qed.
-Lemma blocked_w_new_entities n : blocked (w_new_entities n).
+Lemma blocked_w_new_entities n fn : blocked (w_new_entities n fn).
 Proof. unfold w_new_entities. apply blocked_check. Qed.
-Lemma blocked_w_new_batch n ids rels vals : blocked (w_new_batch n ids rels vals).
+Lemma blocked_w_new_batch n ids rels vals fn : blocked (w_new_batch n ids rels vals fn).
 Proof. unfold w_new_batch. apply blocked_check. Qed.
-Lemma blocked_w_remove_entities f rels : blocked (w_remove_entities f rels).
+Lemma blocked_w_remove_entities f rels fn : blocked (w_remove_entities f rels fn).
 Proof. unfold w_remove_entities. apply blocked_check. Qed.
 Lemma blocked_w_exchange_batch f br add rem rels vals : blocked (w_exchange_batch f br add rem rels vals).
 Proof. unfold w_exchange_batch. apply blocked_check. Qed.
